@@ -27,7 +27,8 @@ type FileSpec struct {
 	Mode uint32 `json:"mode"` // os.FileMode bits
 	// Kind: plain (Payload) | stream (valid compressed Stream) | cut (Stream
 	// truncated to Cut bytes) | damaged (Stream with a seeded fault) | garbage
-	// (Payload bytes that are no compressed file) | symlink (Target) | hardlink
+	// (Payload bytes that are no compressed file) | tailed (a .lzma stream with
+	// bytes behind it, chosen by Seed) | symlink (Target) | hardlink
 	// (a second name of the regular file Target)
 	Kind    string               `json:"kind"`
 	Payload *sim.Payload         `json:"payload,omitempty"`
@@ -142,7 +143,7 @@ func fileBytes(f *FileSpec) (data []byte, plain []byte, valid bool, format strin
 	case "plain", "garbage":
 		b := f.Payload.Bytes()
 		return b, b, f.Kind == "plain", ""
-	case "stream", "cut", "damaged":
+	case "stream", "cut", "damaged", "tailed":
 		b := f.Stream.Build()
 		if b.Err != nil {
 			sim.Infra("cannot build input stream for %s: %v", f.Name, b.Err)
@@ -158,6 +159,23 @@ func fileBytes(f *FileSpec) (data []byte, plain []byte, valid bool, format strin
 				c = 0
 			}
 			img = img[:c]
+			return img, b.Content, false, b.Format
+		case "tailed":
+			// a complete stream with something behind it: a few arbitrary bytes,
+			// zero bytes, or the stream once more (cat a.lzma b.lzma). The .lzma
+			// format has no concatenation and no padding: what follows the stream
+			// is data the decompressor does not account for, and removing the
+			// input would lose it.
+			r := sim.NewRng(f.Seed)
+			img = append([]byte(nil), img...)
+			switch r.Intn(3) {
+			case 0:
+				img = append(img, r.Bytes(r.Range(1, 20))...)
+			case 1:
+				img = append(img, make([]byte, r.Range(1, 8))...)
+			default:
+				img = append(img, b.Stream...)
+			}
 			return img, b.Content, false, b.Format
 		case "damaged":
 			r := sim.NewRng(f.Seed)
@@ -362,8 +380,8 @@ func refDecode(format string, data []byte) ([]byte, bool) {
 			return nil, false
 		}
 		if r.Consumed != len(data) {
-			// trailing bytes after a complete .lzma stream: not generated
-			return r.Out, true
+			// bytes behind a complete .lzma stream: the file is not a .lzma file
+			return nil, false
 		}
 		return r.Out, true
 	}
